@@ -18,6 +18,7 @@ import struct
 from lib import core
 
 DRIVER = "drv_copy"
+LEAN_TARGETS = ["OmplModel.Props.C09", DRIVER]
 ENGINE = "copy"
 
 
@@ -52,7 +53,7 @@ def has_wc(sp):
 
 
 def wc_below_compound(sp, below=False):
-    """a wrapper around a compound space used as a component of a compound (finding F-C09-c)"""
+    """a wrapper around a compound space used as a component of a compound (finding F32)"""
     if sp[0] == 'W':
         if below and is_comp(sp[2]):
             return True
@@ -437,7 +438,7 @@ def gen_state_script(r):
     return sc
 
 
-def gen_storage_script(r, big=False):
+def gen_storage_script(r, big=False, quick=True):
     sc = Script()
     names = Names()
     while True:
@@ -452,7 +453,7 @@ def gen_storage_script(r, big=False):
         B = ('C', names.fresh(), [A]) if A[0] != 'C' else ('C', names.fresh(), list(A[2]) + [('R', names.fresh(), 1)])
     sc.add("space 1 %s" % " ".join(sp_tokens(A)), op="space", sp=A)
     sc.add("space 2 %s" % " ".join(sp_tokens(B)), op="space", sp=B)
-    k = r.range(300, 500) if big else r.choice([0, 1, 1, 2, 3, 5, 8])
+    k = (r.range(120, 200) if quick else r.range(300, 500)) if big else r.choice([0, 1, 1, 2, 3, 5, 8])
     ndist = min(k, 12)
     for i in range(ndist):
         at = gen_atoms(r, A, r.chance(1, 2))
@@ -462,7 +463,7 @@ def gen_storage_script(r, big=False):
     return sc
 
 
-def gen_pd_script(r, big=False):
+def gen_pd_script(r, big=False, quick=True):
     sc = Script()
     names = Names()
     while True:
@@ -476,7 +477,7 @@ def gen_pd_script(r, big=False):
     sc.add("space 1 %s" % " ".join(sp_tokens(A)), op="space", sp=A)
     sc.add("space 2 %s" % " ".join(sp_tokens(B)), op="space", sp=B)
     cdim = r.range(1, 3) if r.chance(2, 5) else None
-    nst = r.range(40, 70) if big else r.range(0, 9)
+    nst = (r.range(20, 30) if quick else r.range(40, 70)) if big else r.range(0, 9)
     for i in range(nst):
         at = gen_atoms(r, A, r.chance(1, 2))
         sc.add(("state %d 1 %d %s" % (i + 1, len(at), " ".join(at))).strip(), op="state", sp=A, atoms=at, regular=False)
@@ -549,14 +550,18 @@ def gen_pd_script(r, big=False):
             v = r.below(nv)
             sc.add("pdmark %d s" % v, op="pdmark")
             sc.add("pdmark %d g" % v, op="pdmark")
+    if r.chance(1, 2):
+        sc.add("pdcross", op="pdcross")
     sc.add("pddump", op="pddump")
     sc.add("pdstore 2 %d" % r.below(1 << 30), op="pdstore", sp=A, sp2=B)
-    sc.add("pdcross", op="pdcross")
+    if r.chance(1, 2):
+        sc.add("pdcross", op="pdcross")
+        sc.add("pddump", op="pddump")
     return sc
 
 
 def gen_wc_probe():
-    """the dedicated probe of finding F-C09-c (undefined behaviour in the real code: run once, alone)"""
+    """the dedicated probe of finding F32 (undefined behaviour in the real code: run once, alone)"""
     sc = Script()
     A = ('C', 1, [('W', 2, ('C', 3, [('R', 4, 2), ('S2', 5)])), ('S2', 6)])
     sc.add("space 1 %s" % " ".join(sp_tokens(A)), op="space", sp=A)
@@ -610,7 +615,6 @@ def oracle(sc, impl, rc, err):
     last_dump = None
     n_expected = len(sc.lines) - 1
     died_at = len(impl) if len(impl) < n_expected else None
-    rc_explained = False
     for i, meta in enumerate(sc.meta):
         line = sc.lines[i + 1]
         if i >= len(impl):
@@ -768,18 +772,13 @@ def oracle(sc, impl, rc, err):
                              call="PlannerDataStorage::load", kind=(tr[2].split(":")[1] if len(tr) > 2 and ":" in tr[2] else "?"))
         elif op == "pdcross":
             if f.get("cross") != "rej":
-                huge = f.get("cross") == "" and re.search(r"allocation-size-too-big|out-of-memory|requested allocation size \S+ .*exceeds maximum supported size", err or "")
-                if huge:
-                    rc_explained = True
-                fail("wrong-kind-archive", "an archive of the other kind (geometric/control marker) was not rejected by returning false: %s%s" % (full[:80], " (the loader asked for an absurd allocation and the process died)" if huge else ""),
-                     call="pdcross", how=("huge-allocation" if huge else "exception" if x.get("threw") == "1" else "accepted"))
+                fail("wrong-kind-archive", "an archive of the other kind (geometric/control marker) must make load() return false with an "
+                     "OMPL error and no escaping exception: %s" % full[:80],
+                     call="pdcross", how=("exception" if x.get("threw") == "1" else "died" if f.get("cross") == "" else "accepted"))
     if died_at is not None:
         meta = sc.meta[died_at] if died_at < len(sc.meta) else {}
         partial = impl[died_at] if died_at < len(impl) else ""
         rec = {"engine": ENGINE, "what": "crash", "op": meta.get("op"), "call": meta.get("op")}
-        if meta.get("op") == "pdcross" and re.search(r"allocation-size-too-big|out-of-memory|bad_alloc|length_error|requested allocation size \S+ .*exceeds maximum supported size", err or ""):
-            rec["what"] = "wrong-kind-archive"
-            rec["how"] = "huge-allocation"
         if meta.get("op") in ("space", "state") and wc_below_compound(meta.get("sp", ('R', 0, 0))):
             rec["what"] = "reals-lost"
             rec["space_class"] = "wrapper-of-compound-in-compound"
@@ -794,7 +793,7 @@ def oracle(sc, impl, rc, err):
         else:
             fails.append((len(impl), {"engine": ENGINE, "what": "leak", "where": "failed-load"},
                           "load() of a truncated/rejected archive leaks its scratch objects (%d leak sites)" % (len(blocks) - 1)))
-    elif rc not in (0,) and died_at is None and not rc_explained:
+    elif rc not in (0,) and died_at is None:
         fails.append((len(impl), {"engine": ENGINE, "what": "crash", "op": "exit"}, "harness exit code %s: %s" % (rc, (err or "")[-300:])))
     return fails
 
@@ -874,9 +873,13 @@ def strip(lines):
 
 
 def run_one(ck, hbin, sc, leak_stacks):
-    env = {"ASAN_OPTIONS": "detect_leaks=1:abort_on_error=0:exitcode=99" + (":fast_unwind_on_malloc=0" if leak_stacks else "")}
-    for attempt in range(3):
-        impl, rc, err = ck.run_bin(hbin, sc.lines, timeout=300, env=env)
+    # allocator_may_return_null=1: an absurd allocation (garbage container length in a foreign archive) throws
+    # std::bad_alloc as it does without ASan, instead of aborting the process
+    env = {"ASAN_OPTIONS": "detect_leaks=1:abort_on_error=0:exitcode=99:allocator_may_return_null=1" + (":fast_unwind_on_malloc=0" if leak_stacks else "")}
+    if ck.tier == "quick":
+        env.update({"C09_TRUNC_EXHAUSTIVE": "1500", "C09_TRUNC_SAMPLES": "150"})
+    for attempt in range(2):
+        impl, rc, err = ck.run_bin(hbin, sc.lines, timeout=(60 if ck.tier == "quick" else 300), env=env)
         # a timeout, or no output at all without a sanitizer report (libompl.so being relinked by a concurrent build of
         # the shared cache, loader errors): an infrastructure hiccup, not a verdict -> retry, then give up loudly
         if impl is None or (not impl and rc not in (0, 98, 99) and "Sanitizer" not in (err or "")):
@@ -885,7 +888,7 @@ def run_one(ck, hbin, sc, leak_stacks):
         break
     else:
         raise RuntimeError("the harness could not be run (rc=%s): %s" % (rc, (err or "")[-300:]))
-    model, rc2, err2 = ck.run_bin(ck.driver(DRIVER), sc.lines, timeout=600)
+    model, rc2, err2 = ck.run_bin(ck.driver(DRIVER), sc.lines, timeout=120)
     if rc2 != 0:
         raise RuntimeError("model driver failed (rc=%s): %s" % (rc2, (err2 or "")[-500:]))
     return impl or [], rc, err or "", model or []
@@ -1034,14 +1037,14 @@ def run(ck):
                    "the Python specification in checks/c09.py (flat enumeration of atoms, name-based partial copy, graph bookkeeping)"]
     ck.assumptions += ["spaces with the same name have the same structure (copyStateData matches by name only); names are unique within a space",
                        "a WrapperStateSpace around a compound space is only used at top level by the random generators (below a compound it is "
-                       "undefined behaviour in the current code: finding F-C09-c, probed once per run); copyStateData is not called on spaces "
+                       "undefined behaviour in the current code: finding F32, probed once per run); copyStateData is not called on spaces "
                        "containing a wrapper of a compound",
                        "equalStates of a copy is demanded only for regular states (finite values, unit quaternions); for arbitrary bit patterns "
                        "(NaN, non-unit quaternions) the byte image must be identical",
                        "'rejected and reported' = PlannerDataStorage::load returns false and logs an OMPL error without an exception escaping; "
                        "StateStorage::load (void) logs an OMPL error and holds only fully-read states, each equal to the stored one"]
-    ck.lean_build(["OmplModel.Props.C09", DRIVER])
-    ck.audit()
+    ck.lean_build(LEAN_TARGETS)
+    ck.audit(roots=["Drv.Copy"])
     if ck.tier == "thorough" and ck.lean_ok:
         ck.leanchecker(["OmplModel.Props.C09"])
     hbin = ck.build_harness(ENGINE, ["copy.cpp"], link_ompl=True)
@@ -1049,7 +1052,7 @@ def run(ck):
     for name, lines in corpus():
         if not judge(ck, hbin, script_from_lines(lines), "corpus"):
             bad += 1
-    # the undefined-behaviour probe of F-C09-c: once, alone, never compared with the model
+    # the undefined-behaviour probe of F32: once, alone, never compared with the model
     judge(ck, hbin, gen_wc_probe(), "probe-wrapper-of-compound", compare=False)
     quick = ck.tier == "quick"
     jobs = []
@@ -1060,8 +1063,8 @@ def run(ck):
     for i in range(70 if quick else 500):
         jobs.append(("planner-data-archive", gen_pd_script(ck.rng.fork("pd%d" % i))))
     for i in range(1 if quick else 6):
-        jobs.append(("states-archive-large", gen_storage_script(ck.rng.fork("ssbig%d" % i), big=True)))
-        jobs.append(("planner-data-archive-large", gen_pd_script(ck.rng.fork("pdbig%d" % i), big=True)))
+        jobs.append(("states-archive-large", gen_storage_script(ck.rng.fork("ssbig%d" % i), big=True, quick=quick)))
+        jobs.append(("planner-data-archive-large", gen_pd_script(ck.rng.fork("pdbig%d" % i), big=True, quick=quick)))
     with concurrent.futures.ThreadPoolExecutor(max_workers=min(14, os.cpu_count() or 4)) as ex:
         futs = [ex.submit(run_one, ck, hbin, sc, True) for _, sc in jobs]
         results = [fu.result() for fu in futs]
@@ -1084,9 +1087,15 @@ def replay(ck, data):
         if i < len(model) and (i >= len(impl) or strip(impl)[i] != model[i]):
             print("%-50s model: %s" % ("", model[i][:300]))
     fails = oracle(sc, impl, rc, err)
+    real = []
     for idx, rec, msg in fails:
-        print("PROPERTY FAILS at op %d: %s  %s" % (idx, msg[:400], rec))
-    if fails:
+        k = ck.known_finding(rec)
+        if k is not None:
+            print("known finding %s at op %d: %s" % (k["id"], idx, msg[:200]))
+        else:
+            real.append((idx, rec, msg))
+            print("PROPERTY FAILS at op %d: %s  %s" % (idx, msg[:400], rec))
+    if real:
         return 1
     if ck.first_diff(strip(impl), model) is not None:
         print("model and implementation disagree (no property failure in this script)")
